@@ -897,7 +897,7 @@ class eval_abs(object):
         return ret
     def dump_mem(self):
         mems = list(self.pool.pool_mem.values())
-        mems.sort()
+        mems.sort(key=lambda m: str(m[0]))
         ret = []
         for m, v in mems:
             ret += [ "%s %s"%(m, v) ]
